@@ -23,7 +23,8 @@ LEVEL = "exploration"
 RULE = ("one run = one manager lifetime (real TCPServer.run + socketserver loop under the seeded "
         "scheduler) receiving a history of 1..N hostile request lines over simulated TCP connections "
         "(arbitrary bytes, invalid UTF-8, hostile JSON shapes, requests of every command with hostile "
-        "field values, sent in fragments / half-closed / reset before the reply / two at once), each "
+        "field values, hostile block / brother / coinbase shapes, a quarter of the later lines repeating "
+        "the previous one; sent in fragments / half-closed / reset before the reply / two at once), each "
         "followed by a well-formed probe on a new connection; non-trivial = at least one hostile line "
         "was parsed as JSON and dispatched; distinct = tuple (mode, sorted kinds of lines in the history, "
         "client behaviours used)")
